@@ -184,8 +184,9 @@ func analyse(s string) (r result) {
 		r.class = "accepted/check-digits-agree,not-judged-well-formed"
 	}
 	// key seed routes
-	if !refmrz.InAlphabet(s) && acc && pacc && pw != nil {
-		// a zone with a symbol outside the alphabet that the library nevertheless ACCEPTS on both routes: no reference
+	if (!refmrz.InAlphabet(s) || !p.KeyFieldsNonEmpty()) && acc && pacc && pw != nil {
+		// a zone with a symbol outside the alphabet, or with an EMPTY key field (unknown date: any check digit spelling is
+		// tolerated), that the library ACCEPTS on both routes: no reference
 		// value exists, but "all ways of supplying the same document data open the same chip" still applies - the
 		// routes must agree with each other
 		var pf *password.Password
@@ -198,7 +199,11 @@ func analyse(s string) (r result) {
 			return fail("panic/key-seed-routes", fmt.Sprintf("NewPasswordMrzi/EncodeMrzi on the decoded fields of %q panicked: %v", s, pv))
 		}
 		if ferr == nil && eerr == nil && pf != nil && (pw.Password != pf.Password || pf.Password != re) {
-			return fail(lay+"/keyseed/routes-disagree-on-accepted-zone-with-foreign-symbol", fmt.Sprintf("zone %q is accepted, but the key seed string is %q from the full MRZ, %q from the decoded fields and %q re-encoded", s, pw.Password, pf.Password, re))
+			kind := "routes-disagree-on-accepted-zone-with-foreign-symbol"
+			if refmrz.InAlphabet(s) {
+				kind = "routes-disagree-on-accepted-zone-with-empty-key-field"
+			}
+			return fail(lay+"/keyseed/"+kind, fmt.Sprintf("zone %q is accepted, but the key seed string is %q from the full MRZ, %q from the decoded fields and %q re-encoded", s, pw.Password, pf.Password, re))
 		}
 	}
 	if !refmrz.InAlphabet(s) || !p.KeyFieldsNonEmpty() {
